@@ -91,6 +91,131 @@ pub mod native {
     pub fn note(s: String) {
         NOTES.with(|f| f.borrow_mut().push(s));
     }
+    use std::panic;
+    pub fn run_one(f: fn()) -> Option<String> {
+        let r = panic::catch_unwind(panic::AssertUnwindSafe(|| f()));
+        match r {
+            Ok(_) => None,
+            Err(e) => {
+                let msg = if let Some(s) = e.downcast_ref::<&str>() {
+                    s.to_string()
+                } else if let Some(s) = e.downcast_ref::<String>() {
+                    s.clone()
+                } else {
+                    "panic".to_string()
+                };
+                Some(msg)
+            }
+        }
+    }
+
+    pub fn report(panic_msg: Option<String>) -> bool {
+        let mut bad = false;
+        FAILS.with(|f| {
+            for l in f.borrow().iter() {
+                println!("FAIL {}", l);
+                bad = true;
+            }
+        });
+        ASSUME_FAILED.with(|f| {
+            for l in f.borrow().iter() {
+                println!("ASSUME {}", l);
+            }
+        });
+        MISSING.with(|f| {
+            for l in f.borrow().iter() {
+                println!("MISSING {}", l);
+            }
+        });
+        COVERS.with(|f| {
+            for l in f.borrow().iter() {
+                println!("COVER {}", l);
+            }
+        });
+        NOTES.with(|f| {
+            for l in f.borrow().iter() {
+                println!("NOTE {}", l.replace('\n', "\\n"));
+            }
+        });
+        if let Some(m) = panic_msg {
+            println!("PANIC {}", m.replace('\n', "\\n"));
+            bad = true;
+        }
+        bad
+    }
+
+    pub fn dump_wit() {
+        WIT.with(|w| {
+            for (k, v) in w.borrow().iter() {
+                println!("WIT {}={}", k, v);
+            }
+        });
+    }
+
+    pub fn replay_cli(t: Vec<(&'static str, fn())>, args: Vec<String>) {
+        panic::set_hook(Box::new(|_| {}));
+        if args.len() >= 2 && args[1] == "list" {
+            for (n, _) in t.iter() {
+                println!("{}", n);
+            }
+            return;
+        }
+        if args.len() < 4 {
+            eprintln!("usage");
+            std::process::exit(2);
+        }
+        let f = match t.iter().find(|(n, _)| *n == args[2]) {
+            Some((_, f)) => *f,
+            None => {
+                println!("NOHARNESS {}", args[2]);
+                std::process::exit(2);
+            }
+        };
+        if args[1] == "run" {
+            reset();
+            let txt = std::fs::read_to_string(&args[3]).unwrap();
+            for line in txt.lines() {
+                if let Some((k, v)) = line.split_once('=') {
+                    if let Ok(v) = v.trim().parse::<i128>() {
+                        set(k.trim(), v);
+                    }
+                }
+            }
+            let p = run_one(f);
+            report(p);
+            println!("END");
+        } else if args[1] == "random" {
+            let seed0: u64 = args[3].parse().unwrap();
+            let n: u64 = args[4].parse().unwrap();
+            let mut ran = 0u64;
+            let mut skipped = 0u64;
+            let mut bad_runs = 0u64;
+            RANDOM_MISSING.with(|r| *r.borrow_mut() = true);
+            for i in 0..n {
+                reset();
+                seed(seed0.wrapping_mul(0x100000001B3).wrapping_add(i));
+                set("bg", ((i % 3) + 2) as i128);
+                let p = run_one(f);
+                let assumed = ASSUME_FAILED.with(|f| !f.borrow().is_empty());
+                if assumed && p.is_none() {
+                    skipped += 1;
+                    continue;
+                }
+                ran += 1;
+                let bad = FAILS.with(|f| !f.borrow().is_empty()) || p.is_some();
+                if bad {
+                    bad_runs += 1;
+                    if bad_runs <= 3 {
+                        println!("CASE {}", i);
+                        report(p);
+                        dump_wit();
+                    }
+                }
+            }
+            println!("RANDOM ran={} skipped={} bad={}", ran, skipped, bad_runs);
+            println!("END");
+        }
+    }
 }
 
 /// known-finding switch: `$kf` is a generated constant crate::verif_gen::KF_<id> (true while the
